@@ -880,7 +880,6 @@ def make_pool(n: int):
 # ------------------------------------------------------------------------------------- judging
 CFG_ENUM = """SPECIFICATION Spec
 CONSTANTS Source = "enum"
-          MovedModuleDocformat = "{movedmod}"
 CONSTRAINT EmitEnum
 INVARIANT {raw}
 INVARIANT {sink}
@@ -895,19 +894,9 @@ INVARIANT StartsStandard
 """
 CFG_FILE = """SPECIFICATION Spec
 CONSTANTS Source = "file"
-          MovedModuleDocformat = "{movedmod}"
 CONSTRAINT EmitFile
 """
 KF_MATH = "math-text-mode-copied-raw"
-KF_MOVEDMOD = "re-exported-module-inherits-the-docformat-of-the-new-package"
-
-
-def kf_moved_module_docformat(w: Dict[str, Any]) -> bool:
-    """Known finding: a re-exported MODULE that declares no __docformat__ inherits the one of the package that re-exports it
-    (Module.docformat asks self.parent).  Matches ONLY violations of the source kind `reexportmodule.plaintext` on the page
-    of the moved module with html2stan observed on level-0 text (the raw block of a plaintext docstring read as reST)."""
-    return (w.get("kind") == "reexportmodule.plaintext" and w.get("invariant") == "SkeletonEqual"
-            and w.get("page") == "zbpkg.m.html" and any(e[0] == "ParseXml" and e[1] == 0 for e in w.get("events", [])))
 # payloads compared with the model for `mathtext` (copied raw, markup turns into elements or XML errors)
 MODELLED_MATHTEXT = ("entities", "xmlbreak")
 
@@ -1004,10 +993,8 @@ def run(ctx: Ctx) -> int:
     # ---- spec -> code: every (kind, sink) pair of Escape.tla
     ctx.register_matcher(KF_MATH, kf_math_text_raw)
 
-    ctx.register_matcher(KF_MOVEDMOD, kf_moved_module_docformat)
-
-    def enumerate_model(movedmod: str, count: bool = True):
-        rr = ctx.tlc("Escape", CFG_ENUM.format(movedmod=movedmod, raw="NeverParsedRawExceptKnown", sink="SinkLevelOneExceptKnown"), workers=4, check=True, coverage=ctx.quick and count, timeout=600, count=count)
+    def enumerate_model(count: bool = True):
+        rr = ctx.tlc("Escape", CFG_ENUM.format(raw="NeverParsedRawExceptKnown", sink="SinkLevelOneExceptKnown"), workers=4, check=True, coverage=ctx.quick and count, timeout=600, count=count)
         if not rr.printed:
             raise MachineryError("Escape.tla printed no (kind, sink) pair")
         if rr.violated:
@@ -1021,8 +1008,7 @@ def run(ctx: Ctx) -> int:
             m["pairs"].append(pr)
         return rr, mdl
 
-    movedmod = "new_package"       # the code as it is; the check uses the transcription the observations conform to
-    r, model = enumerate_model(movedmod)
+    r, model = enumerate_model()
     pairs = r.printed
     ctx.exhaustive = True
     unknown = sorted({k for k, _ in model} - set(KINDS) - {"rolehist"})
@@ -1130,13 +1116,7 @@ def run(ctx: Ctx) -> int:
         return out
 
     twin = conform(model)
-    if any(d and any(d.values()) and o["kind"] == "reexportmodule.plaintext" for d, o in zip(twin, observed_records) if o):
-        r_alt, model_alt = enumerate_model("defining_package", count=False)
-        twin_alt = conform(model_alt)
-        if sum(1 for d in twin_alt if d and any(d.values())) < sum(1 for d in twin if d and any(d.values())):
-            movedmod, model, twin, pairs = "defining_package", model_alt, twin_alt, r_alt.printed
-    ctx.extra["model_variant_followed_by_code"] = {"MovedModuleDocformat": movedmod}
-    strict = ctx.tlc("Escape", CFG_ENUM.format(movedmod=movedmod, raw="NeverParsedRaw", sink="SinkLevelOne"), workers=1, timeout=600,
+    strict = ctx.tlc("Escape", CFG_ENUM.format(raw="NeverParsedRaw", sink="SinkLevelOne"), workers=1, timeout=600,
                      count=False, extra=["-continue"])
     ctx.extra["design_level_invariants_violated"] = sorted(set(strict.violated))
     for d, o in zip(twin, observed_records):
@@ -1162,7 +1142,7 @@ def run(ctx: Ctx) -> int:
     twin = [twin[i] for i in keep]
     f = ctx.scratch / "observed.json"
     f.write_text(json.dumps(observed_records))
-    r2 = ctx.tlc("Escape", CFG_FILE.format(movedmod=movedmod), workers=1, env={"C10_OBSERVED": str(f)}, check=True, timeout=600)
+    r2 = ctx.tlc("Escape", CFG_FILE, workers=1, env={"C10_OBSERVED": str(f)}, check=True, timeout=600)
     got = {x["n"]: x for x in r2.printed}
     if len(got) != len(observed_records):
         raise MachineryError(f"TLC judged {len(got)} of {len(observed_records)} observed flows")
@@ -1194,7 +1174,7 @@ def run(ctx: Ctx) -> int:
     broken[0]["sinks"][0][3] = 2
     broken[0]["events"].append(["ParseXml", 0, 0])
     f.write_text(json.dumps(broken))
-    r3 = ctx.tlc("Escape", CFG_FILE.format(movedmod=movedmod), workers=1, env={"C10_OBSERVED": str(f)}, check=True, count=False)
+    r3 = ctx.tlc("Escape", CFG_FILE, workers=1, env={"C10_OBSERVED": str(f)}, check=True, count=False)
     nc["tlc_rejects_corrupted_observation"] = (not r3.printed[0]["sinkLevelOne"]) and (not r3.printed[0]["neverParsedRaw"]) \
         and bool(r3.printed[0]["stepsNotInModel"])
     # a page in which the canary is written raw must be caught by the crawler (skeleton / well-formedness)
